@@ -34,7 +34,7 @@ theorem rankedToCondorcetR_scale (k : Rat) (p : Profile) :
   unfold Condorcet.rankedToCondorcet
   simp only [allRankedCandidatesR_scale]
   unfold scaleR
-  apply foldl_simMap (scaleP k)
+  refine foldl_simMap (scaleP k) _ _ _ ?_ p []
   intro counts b
   apply foldl_sim' (scaleP k)
   intro cs pr
